@@ -191,6 +191,14 @@ func oracleC06(r *rig, res *scnResult) {
 	if ok {
 		return
 	}
+	if stoppedAfterKnownOnlyReply(r, res, best, t) {
+		// the property's own proviso: "the implementation stops asking a peer whose reply contained no longest-chain
+		// header". The best peer's last reply brought nothing new (another peer had delivered the same headers in the
+		// meantime and the reply cap cut it short of the rest), nothing was requested from it afterwards and it has not
+		// announced anything since: the next announcement will fetch the rest. Counted, not a failure.
+		res.Info["accepted"] = "known-only-reply-ends-requests"
+		return
+	}
 	sig, why := classifyC06(r, res, fs, best, t)
 	got := r.tree.name(res.TipHash)
 	res.Failures = append(res.Failures, lib.Failure{Case: res.Name, Ops: res.S.Ops(),
@@ -198,6 +206,45 @@ func oracleC06(r *rig, res *scnResult) {
 		Expected:  fmt.Sprintf("tip = block #%d (height %d) of node %d, all of its chain LONGEST_CHAIN", best.TipIdx, heightOf(r.tree, best.TipIdx), best.ID),
 		Observed:  fmt.Sprintf("tip = block #%s (table height %d)", got, tipHeightOf(t, res.TipHash)),
 		Signature: sig, Extra: map[string]any{"trace": r.traceStrings(), "notes": r.notes}})
+}
+
+// stoppedAfterKnownOnlyReply: the best peer's last non-empty headers message was an ANSWER (a getheaders precedes it),
+// nothing was requested from that peer afterwards (so the answer added no longest-chain header), the peer sent no
+// announcement afterwards, its cap cut the answer short of its tip, and the service's tip is on that peer's chain.
+func stoppedAfterKnownOnlyReply(r *rig, res *scnResult, best *nodeFinal, t *tree) bool {
+	h := best.Hist
+	k := -1
+	for i, e := range h {
+		if e.Sent && e.Kind == "headers" && len(e.Idx) > 0 {
+			k = i
+		}
+	}
+	if k <= 0 || h[k-1].Sent || h[k-1].Kind != "getheaders" {
+		return false
+	}
+	for _, e := range h[k+1:] {
+		if (!e.Sent && e.Kind == "getheaders") || (e.Sent && (e.Kind == "inv" || (e.Kind == "headers" && len(e.Idx) > 0))) {
+			return false
+		}
+	}
+	if len(h[k].Idx) < r.s.Nodes[best.ID].Cap { // the answer was not cut by the cap
+		return false
+	}
+	for _, idx := range h[k].Idx {
+		if _, ok := t.by[r.tree.disp[idx]]; !ok {
+			return false
+		}
+	}
+	tipIdx, ok := r.tree.byHashDisp(res.TipHash)
+	if !ok {
+		return false
+	}
+	for _, idx := range r.tree.pathTo(best.TipIdx) {
+		if idx == tipIdx {
+			return true
+		}
+	}
+	return false
 }
 
 func heightOf(t *blockTree, idx int) int {
@@ -698,6 +745,9 @@ func reportScn(c *Ctx, res *scnResult, rigErrs *int) {
 	for _, f := range res.Failures {
 		c.R.Fail(f)
 	}
+	if a, ok := res.Info["accepted"].(string); ok {
+		c.R.Count("accepted:"+a, 1)
+	}
 	c.R.Count("engine:"+res.S.Engine, 1)
 	c.R.Count("sched:"+res.S.Sched, 1)
 	c.R.Count(fmt.Sprintf("peers:%d", len(res.S.Nodes)), 1)
@@ -731,7 +781,7 @@ func reportScn(c *Ctx, res *scnResult, rigErrs *int) {
 }
 
 func runC06(c *Ctx) error {
-	c.R.Rule = "scenario = block tree (linear or forked, 5..60 headers quick / up to thousands thorough) x 1..3 scripted conformant nodes (full, lagging, other branch; cap 1/2/7/2000; inbound or outbound; close/stall at a message index) x engine {legacy, experimental} x checkpoints {disabled, one, several, last at tip, none(exp)} x initial store {genesis, prefix, prefix+stale fork, lighter branch} x announcements {inv, headers; one or several nodes} x scheduling {serial with per-event trace comparison against the Lean model, free-running goroutines with seeded delays}; non-trivial = more than one request round or more than one peer or an announcement / peer loss"
+	c.R.Rule = "scenario = block tree (linear or forked, 5..60 headers quick / up to thousands thorough) x 1..3 scripted conformant nodes (full, lagging, other branch; cap 1/2/7/2000; inbound or outbound; close/stall at a message index) x engine {legacy, experimental} x checkpoints {disabled, one, several, last at tip, none(exp)} x initial store {genesis, prefix, prefix+stale fork, lighter branch} x announcements {inv, headers; one or several nodes} x scheduling {serial with per-event trace comparison against the Lean model, free-running goroutines with seeded delays}; non-trivial = more than one request round or more than one peer or an announcement / peer loss; accepted (counted, not failed) per the property's proviso: the best peer's last, cap-limited answer brought only known headers, nothing was requested from it afterwards and it has not announced since"
 	l := newSyncModel(c)
 	defer l.Close()
 	if c.Replay != "" {
